@@ -12,7 +12,7 @@ from .kernel import HarnessError, Violation, rng_for, stable_hash
 from .runner import Stats, digest_dump, load_known, match_known
 
 PROP = "C18"
-PLAN = {"quick": {"budget_s": 45, "max_runs": 30000}, "thorough": {"budget_s": 600, "max_runs": 3000000}}
+PLAN = {"quick": {"budget_s": 45, "max_runs": 300000}, "thorough": {"budget_s": 600, "max_runs": 3000000}}
 RULE = ("a history is sampled by seed (70% bounded <=10 ops, 30% soak <=40 ops; C16/C17 alphabet), run once without "
         "restart (must be clean), then re-run once per position i in [0,|H|] with save/stop/load inserted at i "
         "(exhaustive over positions per history; 20% of the histories additionally with a second restart at every "
